@@ -83,6 +83,8 @@ def main(argv):
     # build a variable TTFont from the designspace document
     # TODO: Use ufo2ft.compileVariableCFF2 for CFF
     vf = ufo2ft.compileVariableTTF(designspace)
+    if not font_config.keep_glyph_names:
+        vf["post"].formatType = 3  # no glyph names, same as static fonts
     vf.save(font_config.output_file)
 
 
